@@ -32,6 +32,7 @@ pub fn mg_redc(n: u64, ninv: u64, x: u128) -> (r: u64)
     ensures
         r < n,
         (r as int * two64()) % (n as int) == (x as int) % (n as int),
+        cong(r as int * two64(), x as int, n as int),
 {
     proof { lemma_u128_split(x); }
     if x as u64 == 0 {
